@@ -27,13 +27,13 @@ var (
 
 // Obs is the observation of one guarded evaluation.
 type Obs struct {
-	Kind    string `json:"kind"` // value | error | panic | discard | syntax
-	Out     string `json:"out,omitempty"`
-	Repr    string `json:"repr,omitempty"`
-	ErrKind string `json:"err_kind,omitempty"`
-	ErrMsg  string `json:"err_msg,omitempty"`
-	Panic   string `json:"panic,omitempty"`
-	Stack   string `json:"-"`
+	Kind    string           `json:"kind"` // value | error | panic | discard | syntax
+	Out     string           `json:"out,omitempty"`
+	Repr    string           `json:"repr,omitempty"`
+	ErrKind string           `json:"err_kind,omitempty"`
+	ErrMsg  string           `json:"err_msg,omitempty"`
+	Panic   string           `json:"panic,omitempty"`
+	Stack   string           `json:"-"`
 	Val     object.PanObject `json:"-"`
 }
 
@@ -128,7 +128,62 @@ func Describe(v object.PanObject) Obs {
 	if e, ok := v.(*object.PanErr); ok {
 		return Obs{Kind: "error", ErrKind: string(e.ErrKind), ErrMsg: e.Msg, Repr: e.Inspect(), Val: v}
 	}
+	if Cyclic(v) {
+		// Inspect would recurse until the Go stack is exhausted (fatal, not recoverable)
+		return Obs{Kind: "value", Repr: CyclicRepr, Val: v}
+	}
 	return Obs{Kind: "value", Repr: v.Inspect(), Val: v}
+}
+
+// CyclicRepr stands for the printed form of a value that is reachable from itself.
+const CyclicRepr = "<value that contains itself>"
+
+// Cyclic reports whether a container is reachable from itself: impossible for values that never
+// change after their creation, and fatal for Inspect/Repr (unbounded Go recursion).
+func Cyclic(v object.PanObject) bool { return cyclic(v, map[object.PanObject]bool{}, 0) }
+
+func cyclic(v object.PanObject, onPath map[object.PanObject]bool, depth int) bool {
+	if v == nil || depth > 200 {
+		return depth > 200
+	}
+	var kids []object.PanObject
+	switch x := v.(type) {
+	case *object.PanArr:
+		kids = x.Elems
+	case *object.PanRange:
+		kids = []object.PanObject{x.Start, x.Stop, x.Step}
+	case *object.PanObj:
+		if x.Pairs == nil || len(*x.Pairs) > 40 {
+			return false
+		}
+		for _, p := range *x.Pairs {
+			kids = append(kids, p.Value)
+		}
+	case *object.PanMap:
+		if x.Pairs != nil {
+			for _, p := range *x.Pairs {
+				kids = append(kids, p.Key, p.Value)
+			}
+		}
+		if x.NonHashablePairs != nil {
+			for _, p := range *x.NonHashablePairs {
+				kids = append(kids, p.Key, p.Value)
+			}
+		}
+	default:
+		return false
+	}
+	if onPath[v] {
+		return true
+	}
+	onPath[v] = true
+	defer delete(onPath, v)
+	for _, k := range kids {
+		if cyclic(k, onPath, depth+1) {
+			return true
+		}
+	}
+	return false
 }
 
 // Parse parses a source text (never panics: the parser recovers internally; a panic that
